@@ -271,6 +271,9 @@ func sameLoc(a, b SV) bool {
 func (fr *frame) loopEnv(h *ssa.BasicBlock, phiVals map[*ssa.Phi]SV, cur *State) *SpecEnv {
 	vc := fr.vc
 	env := vc.topEnv(cur)
+	if fr.top {
+		env.entryVars = vc.params
+	}
 	if !fr.top {
 		// inlined function with a loop: only its own params are visible
 		env.vars = map[string]SV{}
@@ -906,6 +909,12 @@ func (fr *frame) execValue(v ssa.Value, cur *State) SV {
 		return fr.typeAssert(x)
 	case *ssa.MakeSlice:
 		et := x.Type().Underlying().(*types.Slice).Elem()
+		if vc.sortOf(x.Type()) == "Bytes" {
+			// value mode: a fresh non-nil byte string of the requested length
+			b := vc.fresh("mkbytes", "Bytes")
+			vc.assume(and(eq(app("bytes_len", b), fr.val(x.Len).t), not(eq(b, "bytes_nil"))))
+			return SV{t: b, typ: x.Type()}
+		}
 		ln := fr.val(x.Len).t
 		cp := fr.val(x.Cap).t
 		fr.safe("makeslice", and(le("0", ln), le(ln, cp)))
@@ -1280,6 +1289,15 @@ func (fr *frame) sliceOp(x *ssa.Slice, cur *State) SV {
 			mx = n
 		}
 		fr.safe("slice", and(le("0", lo), le(lo, hi), le(hi, mx), le(mx, n)))
+		if vc.sortOf(x.Type()) == "Bytes" {
+			// value mode: a byte-slice literal / array slice becomes a non-nil byte string of that length
+			b := vc.fresh("arrbytes", "Bytes")
+			vc.assume(and(eq(app("bytes_len", b), sub(hi, lo)), not(eq(b, "bytes_nil"))))
+			if arr.Len() > 0 {
+				vc.assumes["value mode: content of a byte array sliced into a byte string is not tracked"] = true
+			}
+			return SV{t: b, typ: x.Type()}
+		}
 		bl := vc.locOf(base)
 		if bl.Idx != "" || len(bl.Path) > 0 {
 			vc.errorf("slicing an interior array in %s", funcKey(fr.fn))
